@@ -543,7 +543,25 @@ func judge(in []byte, idx int, runs []ran, model map[string]string) {
 		so := senParse(in)
 		if so.Panic != "" {
 			finding("violation", "C06", "panic:sen.Parse", "sen.Parse panicked: "+so.Panic, in, map[string]any{"impl": so.String()})
-		} else if !so.OK || so.Tree != firstSingle.o.Tree {
+		} else if so.OK {
+			// C02 through the SEN parser (sen/parser.go is anchored by C02): the value denotes the text
+			if it, err := lib.ParseCanon(so.Tree); err == nil {
+				if ok, why := lib.Denotes(it, specTree, nil); !ok {
+					code := why
+					if i := strings.Index(why, ": "); i > 0 {
+						code = why[:i]
+					}
+					al := &lib.Allow{Int19: lib.HasKnown(knownList, "C02-int19"), Surrogate: lib.HasKnown(knownList, "C02-surrogate")}
+					d := map[string]any{"variant": "sen.Parse", "impl": so.String(), "spec": spec}
+					if ok2, _ := lib.Denotes(it, specTree, al); ok2 && al.Used() != "" {
+						knownFinding("C02", al.Used(), "value:sen.Parse:"+code, why, in, d)
+					} else {
+						finding("violation", "C02", "value:sen.Parse:"+code, "value does not denote the text: "+why, in, d)
+					}
+				}
+			}
+		}
+		if so.Panic == "" && (!so.OK || so.Tree != firstSingle.o.Tree) {
 			finding("violation", "C03", "sen-json", "sen.Parse differs from oj.Parse on a strict JSON text", in,
 				map[string]any{"sen": so.String(), "oj": firstSingle.o.String(), "spec": spec})
 		}
